@@ -142,6 +142,75 @@ def gen_P(rng):
     return "P %s %s" % (t, " ".join(ops))
 
 
+def gen_V(rng):
+    """struct with k fields of type S, through the same model as a Go array (objectGoReflect.valueCache)"""
+    k = rng.randint(1, 5)
+    vals = [rng.randint(-9, 30) for _ in range(k)]
+    ops, gets = [], 0
+    for _ in range(rng.randint(1, 20)):
+        r = rng.random()
+        if r < 0.3:
+            ops.append("get:%d" % rng.randint(0, k)); gets += 1
+        elif r < 0.5:
+            ops.append("set:%d:%d" % (rng.randint(0, k), rng.randint(-9, 99)))
+        elif r < 0.58:
+            ops.append("bad:%d" % rng.randint(0, k))
+        elif r < 0.75 and gets:
+            ops.append("ww:%d:%d" % (rng.randint(0, gets), rng.randint(100, 199)))
+        elif r < 0.88:
+            ops.append("gw:%d:%d" % (rng.randint(0, k), rng.randint(200, 299)))
+        elif r < 0.95:
+            ops.append("ra:%d" % rng.randint(0, 2))
+        else:
+            ops.append("nop:%d" % rng.randint(0, 1))
+    return "V 1 %d %s | %s" % (k, ",".join(map(str, vals)), " ".join(ops))
+
+
+def gen_M(rng):
+    ents = ["%d=%d" % (k, rng.randint(-9, 30)) for k in sorted(rng.sample(range(6), rng.randint(0, 4)))]
+    ops, gets = [], 0
+    for _ in range(rng.randint(1, 20)):
+        r = rng.random()
+        k = rng.randint(0, 6)
+        if r < 0.3:
+            ops.append("get:%d" % k); gets += 1
+        elif r < 0.5:
+            ops.append("set:%d:%d" % (k, rng.randint(-9, 99)))
+        elif r < 0.6:
+            ops.append("del:%d" % k)
+        elif r < 0.75 and gets:
+            ops.append("ww:%d:%d" % (rng.randint(0, gets), rng.randint(100, 199)))
+        elif r < 0.9:
+            ops.append("gw:%d:%d" % (k, rng.randint(200, 299)))
+        else:
+            ops.append("gd:%d" % k)
+    return "M %s %s | %s" % (rng.choice("si"), ",".join(ents) if ents else "-", " ".join(ops))
+
+
+def gen_gateways():
+    """every arity / argument count / result shape up to the bounds below (all branches of both gateways)"""
+    lines = []
+    for nargs in range(0, 6):
+        for va in (0, 1):
+            if va and nargs == 0: continue
+            for l in range(0, 9):
+                for nout in range(0, 4):
+                    for le in (0, 1):
+                        for en in (0, 1):
+                            if (en and not le) or (le and nout == 0): continue
+                            lines.append("C %d %d %d %d %d %d" % (nargs, va, l, nout, le, en))
+    for nf in range(0, 4):
+        for va in (0, 1):
+            for tl in range(0, 4):
+                if tl and not va: continue
+                for nout in range(0, 4):
+                    for le in (0, 1):
+                        if le and nout == 0: continue
+                        for th in (0, 1):
+                            lines.append("J %d %d %d %d %d %d" % (nf, va, tl, nout, le, th))
+    return lines
+
+
 def gen_X(rng):
     n = rng.randint(1, 7)
     toks = []
@@ -311,7 +380,7 @@ def run_sharded(ctx, exe, lines, shards=12, timeout=1800):
 
 
 def model_lines(lines):
-    return [("F" + l[1:]) if l.startswith("G ") else l for l in lines]
+    return [("F" + l[1:]) if l.startswith("G ") else ("W" + l[1:]) if l.startswith("V ") else l for l in lines]
 
 
 def classify_P(line, res):
@@ -357,15 +426,18 @@ def check_W(ctx, h, line, hres, mres, stats):
 def main(ctx):
     quick = ctx.tier == "quick"
     rng = ctx.rng
+    # the Go harness build does not depend on Lean: run both at once
+    bg = ThreadPoolExecutor(max_workers=6)
+    f_go = bg.submit(ctx.go_build)
     ctx.regen()
     ctx.lake_build(["GojaModel.C13.Props", "GojaModel.C13.Tie"])
     # the driver does not depend on Props/Tie: a broken theorem or tie must not switch the correspondence off
     ok, errs = ctx.lake_build(["model_c13"])
-    ctx.audit("GojaModel.C13.Props", expect_min=17)
+    ctx.audit("GojaModel.C13.Props", expect_min=28)
     if not quick:
         ctx.leanchecker("GojaModel.C13.Props")
     ctx.log("lean done")
-    h = ctx.go_build()
+    h = f_go.result()
     ctx.log("go build done")
     model = ctx.model_exe()
     model_ok = ok and os.path.exists(model)
@@ -390,9 +462,9 @@ def main(ctx):
         for fn in sorted(os.listdir(cdir)):
             if fn.endswith(".txt"):
                 corpus += [l.strip() for l in open(os.path.join(cdir, fn)) if l.strip() and not l.startswith("#")]
-    nW = 1000 if quick else 40000
-    nP = 600 if quick else 40000
-    nT = 300 if quick else 12000
+    nW = 800 if quick else 40000
+    nP = 400 if quick else 40000
+    nT = 200 if quick else 12000
     W = [l for l in corpus if l.startswith("W ")] + [gen_W(rng) for _ in range(nW)]
     NF = [l for l in corpus if l[:2] in ("N ", "F ", "G ")] + gen_numeric(rng, 6 if quick else 60)
     Sx = gen_shapes()
@@ -402,18 +474,29 @@ def main(ctx):
 
     # ---------------- correspondence: mechanism model vs implementation
     X = [l for l in corpus if l.startswith("X ")] + [gen_X(rng) for _ in range(400 if quick else 20000)]
-    both = W + NF + Sx + X
-    hres = run_sharded(ctx, h, both)
+    V = [l for l in corpus if l.startswith("V ")] + [gen_V(rng) for _ in range(300 if quick else 10000)]
+    Mm = [l for l in corpus if l.startswith("M ")] + [gen_M(rng) for _ in range(300 if quick else 10000)]
+    CJ = gen_gateways()
+    both = W + NF + Sx + X + V + Mm + CJ
+
+    # ---------------- all streams at once: implementation (sharded), model driver, and the oracle-only streams
+    f_h = bg.submit(run_sharded, ctx, h, both, 8)
+    f_t = bg.submit(run_sharded, ctx, h, T, 4)
+    f_p = bg.submit(run_sharded, ctx, h, P, 4)
+    f_e = bg.submit(run_sharded, ctx, h, E, 1)
     if model_ok:
-        rc, mres, err = ctx.run_lines([model], model_lines(both), timeout=900)
+        rc, mres, err = ctx.run_lines([model], model_lines(both), timeout=3600)
+        if rc == 124:      # slow machine: inconclusive, once more with a longer limit
+            rc, mres, err = ctx.run_lines([model], model_lines(both), timeout=7200)
         if len(mres) != len(both):
             ctx.obligation("corr:model-driver-ran", "correspondence", False, "model printed %d lines for %d inputs: %s" % (len(mres), len(both), err[-300:]))
             mres = mres + ["MODEL-DIED"] * (len(both) - len(mres))
     else:
         mres = [None] * len(both)
+    hres = f_h.result()
     ctx.log("correspondence streams done")
     ctx.count(len(both))
-    groups = {"W": [], "N": [], "F": [], "G": [], "S": [], "X": []}
+    groups = {"W": [], "N": [], "F": [], "G": [], "S": [], "X": [], "V": [], "M": [], "C": [], "J": []}
     for i, l in enumerate(both):
         groups[l[0]].append(i)
     opmix, lens = {}, {}
@@ -433,8 +516,17 @@ def main(ctx):
         if sig not in found:
             found[sig] = (summary, replay)
 
-    for i in groups["W"]:
-        line = both[i]
+    for gname in ("M", "C", "J"):
+        for i in groups[gname]:
+            ctx.nontriv(both[i])
+            if hres[i].startswith("INCONCLUSIVE"): continue
+            if "PANIC" in hres[i] or (mres[i] is not None and hres[i] != mres[i]):
+                what = {"M": "map-wrapper", "C": "gofunc-gateway", "J": "jsfunc-gateway"}[gname]
+                report("%s:%s" % (what, re.sub(r"\W+", "-", both[i])[:40]), "%s: implementation %s, documented behaviour (model) %s" % (both[i], hres[i][:300], (mres[i] or "")[:300]),
+                       {"kind": "history" if gname == "M" else "input", "lines": [both[i]], "expected": [mres[i]], "observed": [hres[i]]})
+    for i in groups["W"] + groups["V"]:
+        line = both[i] if both[i].startswith("W ") else "W" + both[i][1:]
+        isV = both[i].startswith("V ")
         ops = line.split()[5:]
         lens[len(ops)] = lens.get(len(ops), 0) + 1
         for t in ops:
@@ -444,9 +536,11 @@ def main(ctx):
         for sig, summary, k in check_W(ctx, h, line, hres[i], mres[i], ctx.stats):
             # shrink: shortest prefix is k+1 ops; then ddmin inside the prefix
             pre = line.split()[:5]
+            def hline(l2, isV=isV):
+                return ("V" + l2[1:]) if isV else l2
             def fails(sub, sig=sig, pre=pre):
                 l2 = " ".join(pre + sub)
-                rc, o, _ = ctx.run_lines([h], [l2], timeout=60)
+                rc, o, _ = ctx.run_lines([h], [hline(l2)], timeout=300)
                 return bool(o) and any(s == sig for s, _, _ in check_W(ctx, h, l2, o[0], None, {}))
             sub = ops[:k + 1]
             if sig not in found:
@@ -455,8 +549,9 @@ def main(ctx):
                 except Exception:
                     pass
                 l2 = " ".join(pre + sub)
-                rc, o, _ = ctx.run_lines([h], [l2], timeout=60)
-                report(sig, summary, {"kind": "history", "lines": [l2], "expected": spec_W(l2), "observed": o})
+                rc, o, _ = ctx.run_lines([h], [hline(l2)], timeout=300)
+                if isV: sig = sig.replace("wrapcache", "structfield")
+                report(sig, summary, {"kind": "history", "lines": [hline(l2)], "expected": spec_W(l2), "observed": o})
     # numeric: exact part of the table is a property-level statement
     for i in groups["N"]:
         if hres[i].startswith("INCONCLUSIVE"): continue
@@ -500,7 +595,7 @@ def main(ctx):
 
     # ---------------- harness-only streams with in-harness / python oracles
     ctx.log("W judged")
-    tres = run_sharded(ctx, h, T)
+    tres = f_t.result()
     ctx.count(len(T))
     tkinds = {}
     tbad = [i for i, r in enumerate(tres) if not r.startswith("ok") and not r.startswith("INCONCLUSIVE")]
@@ -516,7 +611,7 @@ def main(ctx):
                {"kind": "input", "lines": [T[i]], "observed": [tres[i]]})
 
     ctx.log("T done")
-    pres = run_sharded(ctx, h, P)
+    pres = f_p.result()
     ctx.count(len(P))
     ptargets = {}
     for i, r in enumerate(pres):
@@ -530,20 +625,20 @@ def main(ctx):
             head, ops = P[i].split()[:2], P[i].split()[2:]
             def fails(sub, head=head, sig0=sig0):
                 l2 = " ".join(head + sub)
-                rc, o, _ = ctx.run_lines([h], [l2], timeout=60)
+                rc, o, _ = ctx.run_lines([h], [l2], timeout=300)
                 return bool(o) and o[0] != "ok" and classify_P(l2, o[0]) == sig0
             try:
                 sub = Ctx.ddmin(ops, fails)
             except Exception:
                 sub = ops
             l2 = " ".join(head + sub)
-            rc, o, _ = ctx.run_lines([h], [l2], timeout=60)
+            rc, o, _ = ctx.run_lines([h], [l2], timeout=300)
             report(classify_P(l2, o[0] if o else r), "Go panic escapes a script operation on a wrapper: %s -> %s" % (l2, (o[0] if o else r)[:200]),
                    {"kind": "history", "lines": [l2], "expected": ["ok (no host panic)"], "observed": o})
     ctx.stats["P_targets"] = ptargets
 
     ctx.log("P done")
-    eres = run_sharded(ctx, h, E, shards=1)
+    eres = f_e.result()
     ctx.count(len(E))
     for (line, want), got in zip(E_CASES, eres):
         ctx.nontriv(line)
@@ -577,11 +672,11 @@ def replay(ctx, path):
     for l, x in zip(lines, o):
         print("input         :", l)
         print("implementation:", x)
-        if l[0] in "WNFGSX" and os.path.exists(ctx.model_exe()):
-            rc2, m, _ = ctx.run_lines([ctx.model_exe()], model_lines([l]), timeout=60)
+        if l[0] in "WNFGSXVMCJ" and os.path.exists(ctx.model_exe()):
+            rc2, m, _ = ctx.run_lines([ctx.model_exe()], model_lines([l]), timeout=300)
             print("mechanism model:", m[0] if m else "?")
-        if l[0] == "W":
-            print("documented spec:", " ; ".join(spec_W(l)))
+        if l[0] in "WV":
+            print("documented spec:", " ; ".join(spec_W("W" + l[1:])))
     if r.get("expected"):
         print("expected      :", r["expected"])
     return 0
